@@ -18,12 +18,15 @@
    - unsigned int is 32 bits and wraps; unsigned -> int conversion wraps (implementation-defined in
      C, this is what gcc and clang do); a break outside a loop is an outcome nobody handles. *)
 From Coq Require Export ZArith List String Bool Lia.
+From Sbdf.Gen Require Leaf.
 Export ListNotations.
 Local Open Scope Z_scope.
 
 Inductive region := RIn | ROut.
 Inductive val := VInt (z : Z) | VPtr (r : region) (off : Z) | VNull | VUndef
-  | VBytes (l : list Z).   (* only ever the value of the pseudo-variable "$strm": the unread bytes of the FILE when the stream is separate from the memory *)
+  | VBytes (l : list Z)    (* only ever the value of the pseudo-variable "$strm": the unread bytes of the FILE when the stream is separate from the memory *)
+  | VCell (b : nat) (i : Z)                      (* a pointer to cell i of block b of the cell heap (structs, arrays of pointers) *)
+  | VHeap (h : list (option (list val))).        (* only ever the value of the pseudo-variable "$cells": the cell heap; None = a released block *)
 
 Inductive cty := TInt | TUChar | TChar | TUInt | TSizeT.
 Inductive binop := Add | Sub | Mul | Div | Shl | Shr | BAnd | BOr | BXor | Lt | Le | Gt | Ge | Eq | Ne.
@@ -60,6 +63,13 @@ Inductive expr :=
 | EPostAdd (x : string) (k : Z)        (* p++ / p-- on a pointer to elements of |k| bytes: the old value, x moved by k *)
 | EPreAdd (x : string) (k : Z)
 | EReadBuf (p n : expr)                (* fread(p, 1, n, f) into the caller's memory (stream separate from the memory): as many bytes as the stream still has, at most n; their number *)
+| ECalloc (n : expr)                   (* calloc of a struct or of an array of pointers: a fresh block of n zeroed cells in the cell heap, or NULL when the oracle says so *)
+| ECellLoad (p idx : expr) (isptr : bool)   (* p->field / p[idx] on the cell heap; a zeroed cell read at pointer type is the null pointer *)
+| ECellStore (p idx e : expr)          (* p->field = e / p[idx] = e *)
+| ECellStep (x : string) (k : Z) (post : bool)   (* p++ / ++p / p-- on a pointer into an array of pointers *)
+| EPtrEq (a b : expr)                  (* a == b on pointers *)
+| ELeaf (f : string) (a : expr)        (* a call of one of the pure leaf functions translated by c2gallina (Gen/Leaf.v) *)
+| EStrcmp (p q : expr)                 (* strcmp on two NUL-terminated strings of the memory: -1 / 0 / 1 (libc promises only the sign) *)
 | ESeekCur (e : expr)                  (* fseek(f, e, SEEK_CUR) with e >= 0 on a regular file: the position moves on (also beyond the end), 0 *)
 | EPtrAdd (p e : expr)                 (* p + e on a char pointer *)
 | EPostDec (x : string)
@@ -155,6 +165,8 @@ Definition truth (v : val) : option bool :=
   | VNull => Some false
   | VUndef => None
   | VBytes _ => None
+  | VCell _ _ => Some true
+  | VHeap _ => None
   end.
 
 Definition cast (t : cty) (v : val) : option val :=
@@ -258,11 +270,65 @@ Fixpoint memcmp_l (a b : list Z) : Z :=
   | _, _ => 0
   end.
 
+(* the cell heap: structs and arrays of pointers.  A block is a list of cells, each holding a value
+   (an int or a pointer); calloc hands out zeroed cells; free marks the block released - any later
+   access to it, and a second free, is a fault. *)
+Definition cells_var : string := "$cells".
+Definition heap_of (s : state) : option (list (option (list val))) :=
+  match lookup cells_var (vars s) with Some (VHeap h) => Some h | _ => None end.
+Fixpoint set_nth_v {A} (i : nat) (x : A) (l : list A) : option (list A) :=
+  match l, i with
+  | [], _ => None
+  | _ :: r, O => Some (x :: r)
+  | y :: r, S i' => match set_nth_v i' x r with Some r' => Some (y :: r') | None => None end
+  end.
+Definition cell_get (h : list (option (list val))) (b : nat) (i : Z) : option val :=
+  match nth_error h b with
+  | Some (Some blk) => if 0 <=? i then nth_error blk (Z.to_nat i) else None
+  | _ => None
+  end.
+Definition cell_set (h : list (option (list val))) (b : nat) (i : Z) (v : val) : option (list (option (list val))) :=
+  match nth_error h b with
+  | Some (Some blk) =>
+    if 0 <=? i then match set_nth_v (Z.to_nat i) v blk with Some blk' => set_nth_v b (Some blk') h | None => None end else None
+  | _ => None
+  end.
+Definition as_ptr (v : val) : val := match v with VInt 0 => VNull | _ => v end.
+Definition storable (v : val) : bool := match v with VInt _ | VPtr _ _ | VNull | VCell _ _ => true | _ => false end.
+Definition ptr_eqb (a b : val) : option bool :=
+  match as_ptr a, as_ptr b with
+  | VNull, VNull => Some true
+  | VNull, (VPtr _ _ | VCell _ _) | (VPtr _ _ | VCell _ _), VNull => Some false
+  | VCell b1 i1, VCell b2 i2 => Some (Nat.eqb b1 b2 && (i1 =? i2))
+  | VPtr RIn o1, VPtr RIn o2 => Some (o1 =? o2)
+  | VPtr ROut o1, VPtr ROut o2 => Some (o1 =? o2)
+  | VCell _ _, VPtr _ _ | VPtr _ _, VCell _ _ => Some false
+  | _, _ => None
+  end.
+Definition leaf_call (f : string) (x : Z) : option Z :=
+  if String.eqb f "sbdf_ti_is_arr" then Some (Leaf.gen_sbdf_ti_is_arr x)
+  else if String.eqb f "sbdf_get_unpacked_size" then Some (Leaf.gen_sbdf_get_unpacked_size x)
+  else if String.eqb f "sbdf_get_packed_size" then Some (Leaf.gen_sbdf_get_packed_size x)
+  else None.
+(* the bytes of a NUL-terminated string starting at the head of l *)
+Fixpoint cstr_l (l : list Z) : option (list Z) :=
+  match l with
+  | [] => None
+  | b :: r => if b =? 0 then Some [] else match cstr_l r with Some t => Some (b :: t) | None => None end
+  end.
+Fixpoint lexcmp_l (a b : list Z) : Z :=
+  match a, b with
+  | [], [] => 0
+  | [], _ :: _ => -1
+  | _ :: _, [] => 1
+  | x :: a', y :: b' => if x <? y then -1 else if y <? x then 1 else lexcmp_l a' b'
+  end.
+
 Fixpoint eval (e : expr) (s : state) : option (val * state) :=
   match e with
   | EConst z => match chk z with Some v => Some (v, s) | None => None end
   | ENull => Some (VNull, s)
-  | EVar x => match lookup x (vars s) with Some VUndef => None | Some (VBytes _) => None | Some v => Some (v, s) | None => None end
+  | EVar x => match lookup x (vars s) with Some VUndef => None | Some (VBytes _) => None | Some (VHeap _) => None | Some v => Some (v, s) | None => None end
   | EDeref p =>
     match eval p s with
     | Some (pv, s1) => match load pv s1 with Some v => Some (v, s1) | None => None end
@@ -487,6 +553,21 @@ Fixpoint eval (e : expr) (s : state) : option (val * state) :=
     match eval a s with
     | Some (VNull, s1) => Some (VInt 0, s1)
     | Some (VPtr RIn o, s1) => if (0 <=? o) && (o <=? Z.of_nat (List.length (inb s1))) then Some (VInt 0, s1) else None
+    | Some (VCell b i, s1) =>
+      match heap_of s1 with
+      | Some h =>
+        match nth_error h b with
+        | Some (Some _) =>
+          if i =? 0 then
+            match set_nth_v b None h with
+            | Some h' => match set_var cells_var (VHeap h') s1 with Some s2 => Some (VInt 0, s2) | None => None end
+            | None => None
+            end
+          else None
+        | _ => None            (* not a block, or released before: a double free *)
+        end
+      | None => None
+      end
     | _ => None
     end
   | EStoreInt32 p a =>
@@ -541,6 +622,111 @@ Fixpoint eval (e : expr) (s : state) : option (val * state) :=
       if (0 <=? o + k) && (o + k <=? Z.of_nat (List.length (inb s))) then
         match set_var x (VPtr RIn (o + k)) s with Some s1 => Some (VPtr RIn (o + k), s1) | None => None end
       else None
+    | _ => None
+    end
+  | ECalloc a =>
+    match eval a s with
+    | Some (VInt n, s1) =>
+      match heap_of s1 with
+      | Some h =>
+        if 0 <=? n then
+          let fresh := VCell (List.length h) 0 in
+          let grown := h ++ [Some (repeat (VInt 0) (Z.to_nat n))] in
+          match lookup fail_var (vars s1) with
+          | Some (VInt k) =>
+            if k =? 0 then match set_var fail_var (VInt (-1)) s1 with Some s2 => Some (VNull, s2) | None => None end
+            else
+              match set_var fail_var (VInt (if 0 <? k then k - 1 else k)) s1 with
+              | Some s2 => match set_var cells_var (VHeap grown) s2 with Some s3 => Some (fresh, s3) | None => None end
+              | None => None
+              end
+          | _ => None
+          end
+        else None
+      | None => None
+      end
+    | _ => None
+    end
+  | ECellLoad p idx isptr =>
+    match eval p s with
+    | Some (VCell b i, s1) =>
+      match eval idx s1 with
+      | Some (VInt k, s2) =>
+        match heap_of s2 with
+        | Some h => match cell_get h b (i + k) with
+                    | Some v => Some ((if isptr then as_ptr v else v), s2)
+                    | None => None end
+        | None => None
+        end
+      | _ => None
+      end
+    | _ => None
+    end
+  | ECellStore p idx a =>
+    match eval p s with
+    | Some (VCell b i, s1) =>
+      match eval idx s1 with
+      | Some (VInt k, s2) =>
+        match eval a s2 with
+        | Some (v, s3) =>
+          if storable v then
+            match heap_of s3 with
+            | Some h => match cell_set h b (i + k) v with
+                        | Some h' => match set_var cells_var (VHeap h') s3 with Some s4 => Some (v, s4) | None => None end
+                        | None => None end
+            | None => None
+            end
+          else None
+        | None => None
+        end
+      | _ => None
+      end
+    | _ => None
+    end
+  | ECellStep x k post =>
+    match lookup x (vars s) with
+    | Some (VCell b i) =>
+      match heap_of s with
+      | Some h =>
+        match nth_error h b with
+        | Some (Some blk) =>
+          if (0 <=? i + k) && (i + k <=? Z.of_nat (List.length blk)) then
+            match set_var x (VCell b (i + k)) s with Some s1 => Some ((if post then VCell b i else VCell b (i + k)), s1) | None => None end
+          else None
+        | _ => None
+        end
+      | None => None
+      end
+    | _ => None
+    end
+  | EPtrEq a b =>
+    match eval a s with
+    | Some (va, s1) =>
+      match eval b s1 with
+      | Some (vb, s2) => match ptr_eqb va vb with Some t => Some (VInt (b2z t), s2) | None => None end
+      | None => None
+      end
+    | None => None
+    end
+  | ELeaf f a =>
+    match eval a s with
+    | Some (VInt x, s1) => match leaf_call f x with Some r => Some (VInt r, s1) | None => None end
+    | _ => None
+    end
+  | EStrcmp p q =>
+    match eval p s with
+    | Some (VPtr RIn o1, s1) =>
+      match eval q s1 with
+      | Some (VPtr RIn o2, s2) =>
+        let len := Z.of_nat (List.length (inb s2)) in
+        if (0 <=? o1) && (o1 <=? len) && (0 <=? o2) && (o2 <=? len) then
+          match cstr_l (skipn (Z.to_nat o1) (inb s2)), cstr_l (skipn (Z.to_nat o2) (inb s2)) with
+          | Some a, Some b => Some (VInt (lexcmp_l a b), s2)
+          | _, _ => None
+          end
+        else None
+      | _ => None
+      end
     | _ => None
     end
   | ESeekCur a =>
